@@ -68,6 +68,8 @@ class RLScheduler(BaseScheduler):
 
         self._agent_thread: threading.Thread | None = None
         self._stopped: bool = True
+        # the action chosen by the agent for the next batch, already taken out of the queue
+        self._next_action: int | None = None
 
     def _set_random_state(self, random_state: int | None) -> None:
         """Set the random state (private use)."""
@@ -111,11 +113,14 @@ class RLScheduler(BaseScheduler):
     def _train(self) -> None:
         """Run the training loop."""
         state = self._env.reset()
-        while not self._stopped:
+        while True:
             # Get the action chosen by the agent
             action = self._agent.policy(state)
             # Interact with the environment
-            next_state, reward, _, _, _ = self._env.step(action)
+            next_state, reward, _, truncated, _ = self._env.step(action)
+            if truncated:
+                # the session ended: the pending action was never executed, there is nothing to learn
+                break
             # Learn from interaction
             self._agent.learn(state, action, reward, next_state)
             state = next_state
@@ -128,14 +133,16 @@ class RLScheduler(BaseScheduler):
         self._stopped = False
         self._agent_thread = threading.Thread(target=self._train)
         self._agent_thread.start()
+        # wait for the first action: from here on the agent is idle (blocked on its queue) whenever
+        # the calibration loop is running, so the exchange does not depend on thread timing
+        self._next_action = self._in_queue.get()
 
     def get_next_sampler(self) -> BaseSampler:
         """Get the next sampler."""
         if self._best_loss is None:
             # first call, return halton sampler
             return self.samplers[self._halton_sampler_id]
-        chosen_sampler_id = self._in_queue.get()
-        return self.samplers[chosen_sampler_id]
+        return self.samplers[cast(int, self._next_action)]
 
     def update(
         self,
@@ -156,6 +163,8 @@ class RLScheduler(BaseScheduler):
             self._best_param = new_params[np.argmin(new_losses)]
 
         self._out_queue.put((self._best_param, self._best_loss))
+        # wait until the agent has learned from this batch and has chosen its next action
+        self._next_action = self._in_queue.get()
 
     def end_session(self) -> None:
         """Tear down the scheduler at the end of the session."""
@@ -165,3 +174,5 @@ class RLScheduler(BaseScheduler):
         self._stopped = True
         self._out_queue.put(None)
         cast(threading.Thread, self._agent_thread).join()
+        # the action the agent had pending is dropped: it was never executed
+        self._next_action = None
